@@ -19,7 +19,7 @@ STREAM_TYPES = ('std::basic_fstream<char>', 'std::basic_ofstream<char>', 'std::b
                 'std::basic_iostream<char>')
 TESTS = {'is_open', 'fail', 'good', 'bad', 'operator!', 'operator bool', 'eof', 'rdstate'}
 WRITES = {'write', 'put', 'operator<<'}
-POSITION = {'tellg', 'tellp', 'seekg', 'seekp'}
+POSITION = {'tellg', 'tellp', 'seekg', 'seekp', 'read', 'get', 'peek', 'gcount', 'sync', 'ignore'}   # move / look: may fail, never un-fail
 HIDERS = {'clear', 'setstate', 'rdbuf', 'swap', 'operator=', 'copyfmt'}
 IOFAIL = 'std::ios_base::failure'
 
@@ -161,12 +161,13 @@ def run(prog, tier):
                 name = uses[i][1]
                 if name == 'is_open':
                     return opn
+                # failed == 'lost': a failure happened and the error state was cleared afterwards (the stream tests good again)
                 if name in ('fail', 'operator!'):
-                    return failed
+                    return failed in (True, 'open')
                 if name in ('good', 'operator bool'):
-                    return not failed
+                    return failed not in (True, 'open')
                 if name == 'bad':
-                    return None if failed else False
+                    return None if failed is True else False
             # bool(f) through the conversion operator shows as a member call named 'operator bool'
             return None
         return a
@@ -182,8 +183,12 @@ def run(prog, tier):
             return [(state, 'next')]
         outs = []
 
-        def may_fail(ns):
+        def may_fail(ns, output=False):
             f2, d2, o2, t2 = ns
+            if f2 == 'open' and output:
+                # output handed to a stream whose open failed is discarded: from here on it is a lost write
+                f2 = True
+                ns = (f2, d2, o2, t2)
             if t2:
                 return [(ns, 'next'), ((True, d2, o2, t2), 'throw')]
             return [(ns, 'next'), ((True, d2, o2, t2), 'next')]
@@ -217,17 +222,17 @@ def run(prog, tier):
             n = w.nodes[nid]
             if n['callee']['nparams'] == 0:
                 return [((False, False, False, False), 'next')]
-            return [((False, False, True, False), 'next'), ((True, False, False, False), 'next')]
+            return [((False, False, True, False), 'next'), (('open', False, False, False), 'next')]
         if nid in uses:
             kind, name = uses[nid]
             if kind == 'arg':
                 cu = w.nodes[nid]['callee']['usr']
                 if cu in prog.funcs:
-                    return may_fail((failed, True, opn, thr))
+                    return may_fail((failed, True, opn, thr), output=True)
                 unknown.append((nid, 'stream passed to ' + w.nodes[nid]['callee']['qname']))
                 return [(state, 'next')]
             if name in WRITES:
-                return may_fail((failed, True, opn, thr))
+                return may_fail((failed, True, opn, thr), output=True)
             if name in POSITION:
                 return may_fail(state)
             if name == 'flush':
@@ -235,8 +240,12 @@ def run(prog, tier):
             if name == 'close':
                 return may_fail((failed, False, False, thr))
             if name == 'open':
-                return [((failed, dirty, True, thr), 'next')] + \
-                       ([((True, dirty, False, thr), 'throw')] if thr else [((True, dirty, False, thr), 'next')])
+                # a successful open() calls clear() (C++11 [fstream.members]): whatever failed before is forgotten
+                # (failed == 'open': only an open has failed so far - nothing was handed to the stream, trying again loses nothing)
+                cleared = False if failed in (False, 'open') else 'lost'
+                again = 'open' if failed in (False, 'open') else failed
+                return [((cleared, dirty, True, thr), 'next')] + \
+                       ([((again, dirty, False, thr), 'throw')] if thr else [((again, dirty, False, thr), 'next')])
             if name in TESTS:
                 return [(state, 'next')]
             if name == 'exceptions':
@@ -245,7 +254,7 @@ def run(prog, tier):
                     return [(state, 'next')]
                 an = w.nodes[w.strip(args[0], 'all')]
                 if 'cv' in an and (int(an['cv']) & 5) == 5:
-                    if failed:
+                    if failed in (True, 'open'):
                         return [((failed, dirty, opn, True), 'throw')]
                     return [((failed, dirty, opn, True), 'next')]
                 if 'cv' in an:
@@ -256,7 +265,7 @@ def run(prog, tier):
                 return [(state, 'next')]
             if name in HIDERS:
                 # reported separately; model clear() as what it does
-                return [((False, dirty, opn, thr), 'next')]
+                return [(('lost' if failed in (True, 'lost') else False, dirty, opn, thr), 'next')]
             unknown.append((nid, 'unknown stream member ' + name))
         return [(state, 'next')]
 
@@ -351,7 +360,7 @@ def run(prog, tier):
         for vid, st in out:
             nid = g.node_of(vid) if isinstance(vid, tuple) else None
             lab = vid if isinstance(vid, str) else (w.loc(nid) if nid is not None else None)
-            s = 'failed=%d dirty=%d open=%d throwing=%d' % tuple(int(x) for x in st)
+            s = 'failed=%s dirty=%d open=%d throwing=%d' % ((st[0] if isinstance(st[0], str) else int(st[0])), int(st[1]), int(st[2]), int(st[3]))
             if lab and (lab, s) != last:
                 steps.append('%s [%s]' % (lab, s))
                 last = (lab, s)
@@ -362,7 +371,8 @@ def run(prog, tier):
         kinds = {}
         for b in bad_exit:
             st = b[1]
-            key = 'returns normally with the stream failed' if st[0] else \
+            key = 'returns normally after a failure whose error state was cleared (a successful open() or clear() forgets it) and never reported' if st[0] == 'lost' else \
+                  'returns normally with the stream failed' if st[0] else \
                   'returns normally with unflushed output (destructor flush is not checked)'
             kinds.setdefault(key, b)
         for key, b in kinds.items():
